@@ -3,3 +3,6 @@ import Driver.Dominance
 import Driver.Archive
 import Driver.Num
 import Driver.Catchment
+import Driver.Suppa
+import Driver.Kirkpatrick
+import Driver.Anneal
